@@ -44,7 +44,7 @@ REQUIRED_REACH = ['Transformation.py:transformation', 'transformation_quad',
 
 ATTACH = ['surf-tr', 'trcl-num', 'trcl-inline12', 'trcl-inline3',
           'trcl-inline13', 'trcl-star', 'implicit', 'trcl-pair',
-          'trcl-filled', 'trcl-inline-jumps']
+          'trcl-filled', 'trcl-inline-jumps', 'implicit-filled']
 KINDS = [('p', 'general'), ('p', 'axis+'), ('px', 'any'), ('s', 'any'),
          ('c/z', 'any'), ('cx', 'any'), ('k/y', 'plus'), ('kz', 'minus'),
          ('kx', 'two'), ('k/x', 'minus'), ('tz', 'circular'),
@@ -191,7 +191,7 @@ def build(case):
     trs = []
     sur = M.Surf(1, kind, params)
     leaves = [M.S(-1), M.S(1)]
-    if macro and attach != 'implicit':
+    if macro and attach not in ('implicit', 'implicit-filled'):
         leaves += c03.facet_leaves(kind, params)
     deck = probe_deck([sur], leaves, title=f'C04 {attach} {rot} {kind}')
     probe_cells = [c for c in deck.cells if c.id != 900]
@@ -276,7 +276,7 @@ def build(case):
             extra_cells.append(twin)
         deck.cells[-1:-1] = extra_cells
         deck.second_motion = second
-    elif attach == 'implicit':
+    elif attach in ('implicit', 'implicit-filled'):
         # cell 1 carries the TRCL; cells 2 and 3 refer to its moved surface
         trs.append(tr_card(rng, 7, motion, spelling))
         deck.tags.add(f'trspell.{spelling}')
@@ -312,6 +312,39 @@ def build(case):
                 return (expr[0],) + tuple(swap(sub) for sub in expr[1:])
             for cel in deck.cells:
                 cel.geom = swap(cel.geom)
+    if attach == 'implicit-filled':
+        # the cell with the TRCL and the cells that refer to its moved
+        # surface all belong to a universe, which is placed by a fill
+        # transformation (or by the TRCL of the filled cell): the implicit
+        # surface is moved a second time
+        for cel in deck.cells:
+            if cel.id != 900:
+                cel.u = 5
+        outer = motion_of_class(rng, rng.choice(['generic', 'quarter',
+                                                 'translation', 'flip-z']))
+        outer = type(outer)([round(rng.uniform(-1.5, 1.5), 3)
+                             for _ in range(3)], outer.b)
+        world = deck.surfs[-1].id
+        deck.surfs.append(M.Surf(60, 'so', [9.0]))
+        nmat = len(deck.mats)
+        deck.mats += [M.Material(nmat + 1, [('13027', '1')]),
+                      M.Material(nmat + 2, [('13027', '1')])]
+        cont = M.Cell(10, mat=nmat + 1, rho='-7.5', geom=M.S(-60),
+                      imp={'n': '1'}, fill=M.Fill(universe=5))
+        how = rng.choice(['fill-inline', 'fill-star', 'fill-num',
+                          'container-trcl'])
+        if how == 'fill-num':
+            trs.append(tr_card(rng, 8, outer, rng.choice(['12', 'star'])))
+            cont.fill.tr = M.TrSpec(number=8)
+        elif how == 'container-trcl':
+            cont.trcl = tr_spec(rng, outer, 'inline12')
+        else:
+            cont.fill.tr = tr_spec(rng, outer, 'inline12'
+                                   if how == 'fill-inline' else 'star')
+        rest = M.Cell(11, mat=nmat + 2, rho='-8.5',
+                      geom=M.AND(M.CELLC(10), M.S(-world)), imp={'n': '1'})
+        deck.cells[-1:-1] = [cont, rest]
+        deck.tags.add(f'implicit-filled.{how}')
     if jump_disp and trs:
         trs[0].origin = [None if v == 0.0 else v for v in trs[0].origin]
         deck.tags.add('tr.displacement-jumps')
